@@ -5,7 +5,7 @@ on the real object's observable views (multi_items + key order), so merged state
 import itertools
 
 from ..core.result import R
-from ..core.explore import bfs
+from ..core.explore import bfs, hidden_attrs
 
 PROPERTY = "C17"
 LEVEL = "model_checking"
@@ -338,7 +338,9 @@ def run_shard(desc, tier):
 
         def canon(hist):
             m, l, _ = replay_history(init, hist)
-            return (tuple(m.multi_items()), tuple(m.keys()))
+            # besides the public views, every attribute the object keeps that is not one of its two documented containers
+            hidden = hidden_attrs(m, ("_list", "_dict"))
+            return (tuple(m.multi_items()), tuple(m.keys()), hidden)
 
         c = {}
         ns, nt, deepest = bfs([()], successors, canon, max_depth=depth, counters=c)
